@@ -104,8 +104,9 @@ def maskSched (mask : List Bool) (s : Schedule) : Schedule :=
 /-- `PatternCollection.clear_unused_dims()` (default bounds): drop the dimensions with bound `== 1` -/
 def clearUnused (s : Schedule) : Schedule := maskSched (s.bounds.map (· != 1)) s
 
-/-- `PatternCollection.canonicalize()`: keep the dimensions with bound `> 1` -/
-def canonicalize (s : Schedule) : Schedule := maskSched (s.bounds.map (1 < ·)) s
+/-- `PatternCollection.canonicalize()`: drop the dimensions with bound `== 1` (since the repair of
+`AccessPattern.canonicalize` in /repo a bound `<= 0`, an empty space, is kept) -/
+def canonicalize (s : Schedule) : Schedule := maskSched (s.bounds.map (· != 1)) s
 
 /-- `l[-k:]` for `k > 0` -/
 def lastN {α} (k : Nat) (l : List α) : List α := l.drop (l.length - k)
